@@ -1140,6 +1140,7 @@ func oxmLenRule(w *World, r *Report) {
 				r.Fail(VUndecided, "oxmlen", fi.Key, inst, pos, why)
 				continue
 			}
+			vT, mT = simplifyUnderGuard(vT, cs.Guard), simplifyUnderGuard(mT, cs.Guard)
 			want := vT
 			switch h := cs.Fields[P+".HasMask"].(type) {
 			case BoolV:
@@ -1154,6 +1155,7 @@ func oxmLenRule(w *World, r *Report) {
 				r.Fail(VUndecided, "oxmlen", fi.Key, inst, pos, "the mask flag is assigned a value the interpreter cannot follow")
 				continue
 			}
+			want = simplifyUnderGuard(want, cs.Guard)
 			// a header taken from the registry by a constant name: its width is the registry's
 			if rw, ok := w.registryWidthFor(fi); ok {
 				sub := func(t *Term) *Term {
